@@ -31,6 +31,9 @@ pub fn build_arg(a: &Value) -> Arg {
     for al in a["aliases"].as_array().unwrap() {
         x = if visible.contains(&al) { x.visible_alias(s_of(al)) } else { x.alias(s_of(al)) };
     }
+    if let Some(n) = a["valnames"].as_u64().filter(|n| *n > 0) {
+        x = x.value_names((0..n).map(|i| format!("V{i}")).collect::<Vec<_>>());
+    }
     if let Some(h) = a["heading"].as_str().filter(|h| !h.is_empty()) {
         x = x.help_heading(h.to_string());
     }
